@@ -14,7 +14,12 @@ import (
 
 type comp struct{}
 
+// Gen: four cases in five are part A (one rules file: build, load, reqkeys, start, evals), one in
+// five is part B (a stream of up to maxLen+8 malformed requests).
 func (comp) Gen(r *kit.Rng, maxLen int, tier string) kit.Case {
+	if r.Chance(20) {
+		return genPartB(r, maxLen)
+	}
 	return genPartA(r, maxLen)
 }
 
@@ -27,6 +32,8 @@ func (comp) NewCase(h []string) kit.Runner {
 	switch kit.KV(h, "part") {
 	case "A":
 		return &runnerA{raw: newRaw()}
+	case "B":
+		return &runnerB{w: getWorldB()}
 	}
 	return nullRunner{}
 }
